@@ -31,7 +31,8 @@ type c38Hist struct {
 	ops     []string // model op lines
 	impl    []string // implementation's answers
 	hist    []string // human-readable history (replay)
-	known   map[string][]string
+	known   map[string][]string // entry types from index base[node]
+	base    map[string]uint64   // first index held (0 = nothing observed yet)
 	rows    int
 	aborted string
 	linTO   time.Duration
@@ -86,16 +87,36 @@ func (h *c38Hist) sync() bool {
 		if len(types) == 0 {
 			continue
 		}
-		if first != 1 {
-			h.t.Fatalf("C38 harness: node %s log starts at %d (compaction not expected in these histories)", n.Name, first)
-		}
+		oldBase := h.base[n.Name]
 		old := h.known[n.Name]
+		switch {
+		case oldBase == 0 && first > 1:
+			// the node's log starts above 1: it received a snapshot (fsmRestore) up to first-1
+			h.emit(fmt.Sprintf("%s restore %d", n.Name, first-1), "ok")
+			h.rep.Count("model-event:restore")
+			old = nil
+		case oldBase != 0 && first > oldBase:
+			if first > oldBase+uint64(len(old)) {
+				// everything known is gone and there is a gap: a snapshot was installed
+				h.emit(fmt.Sprintf("%s restore %d", n.Name, first-1), "ok")
+				h.rep.Count("model-event:restore")
+				old = nil
+			} else {
+				// entries below `first` were deleted after a snapshot of this node
+				h.emit(fmt.Sprintf("%s compact %d", n.Name, first-1), "ok")
+				h.rep.Count("model-event:compact")
+				old = old[first-oldBase:]
+			}
+		case oldBase != 0 && first < oldBase:
+			h.t.Fatalf("C38 harness: node %s first log index went backwards (%d -> %d)", n.Name, oldBase, first)
+		}
+		h.base[n.Name] = first
 		common := 0
 		for common < len(old) && common < len(types) && old[common] == types[common] {
 			common++
 		}
 		if common < len(old) {
-			h.emit(fmt.Sprintf("%s trunc %d", n.Name, common), "ok")
+			h.emit(fmt.Sprintf("%s trunc %d", n.Name, first-1+uint64(common)), "ok")
 			h.rep.Count("model-event:trunc")
 		}
 		for _, ty := range types[common:] {
@@ -109,8 +130,8 @@ func (h *c38Hist) sync() bool {
 		// the FSM goroutine may still be inside Apply for the last entry: poll briefly
 		want := uint64(0)
 		for i, ty := range types {
-			if ty == "command" && uint64(i+1) <= ci {
-				want = uint64(i + 1)
+			if idx := first + uint64(i); ty == "command" && idx <= ci {
+				want = idx
 			}
 		}
 		deadline := time.Now().Add(10 * time.Second)
@@ -142,8 +163,8 @@ func (h *c38Hist) linRead(after string) {
 		fi := s.fsmIdx.Load()
 		types := h.known[leader.Name]
 		lastTy := "none"
-		if ci >= 1 && int(ci) <= len(types) {
-			lastTy = types[ci-1]
+		if b := h.base[leader.Name]; b != 0 && ci >= b && int(ci-b) < len(types) {
+			lastTy = types[ci-b]
 		}
 		start := time.Now()
 		_, lvl, err := clu8Query(s, "SELECT COUNT(*) FROM c38", proto.ConsistencyLevel_LINEARIZABLE, h.linTO)
@@ -242,6 +263,12 @@ func (h *c38Hist) do(kind string, r *vfRng, maxNodes int) string {
 			h.rep.Count("snapshot-declined")
 		}
 		return "snapshot"
+	case "snapshot-compact":
+		// a user-requested snapshot that leaves ONE trailing log entry: the log below it is deleted
+		if err := leader.S.Snapshot(1); err != nil {
+			h.rep.Count("snapshot-declined")
+		}
+		return "snapshot-compact"
 	case "join-voter", "join-nonvoter":
 		up := 0
 		for _, n := range h.c.Nodes {
@@ -333,7 +360,7 @@ func (h *c38Hist) do(kind string, r *vfRng, maxNodes int) string {
 var c38Kinds = []struct {
 	k string
 	w int
-}{{"write", 18}, {"strong", 8}, {"noopcmd", 5}, {"barrier", 10}, {"snapshot", 6}, {"join-voter", 14},
+}{{"write", 18}, {"strong", 8}, {"noopcmd", 5}, {"barrier", 10}, {"snapshot", 4}, {"snapshot-compact", 8}, {"join-voter", 14},
 	{"join-nonvoter", 8}, {"rejoin-same", 5}, {"remove", 12}, {"stepdown", 14}}
 
 func c38Pick(r *vfRng) string {
@@ -354,7 +381,7 @@ func c38Pick(r *vfRng) string {
 func c38RunHistory(t *testing.T, rep *vfReport, r *vfRng, nOps, maxNodes int, script []string) (ops, impl []string, completed bool) {
 	c := clu8NewCluster(t)
 	defer c.Close()
-	h := &c38Hist{t: t, rep: rep, c: c, known: map[string][]string{}, linTO: 5 * time.Second}
+	h := &c38Hist{t: t, rep: rep, c: c, known: map[string][]string{}, base: map[string]uint64{}, linTO: 5 * time.Second}
 	h.emit("reset", "ok")
 	n0, err := c.NewNode()
 	if err != nil {
@@ -410,6 +437,9 @@ func TestVerifC38(t *testing.T) {
 	directed := [][]string{
 		{"join-voter", "barrier", "join-voter", "stepdown", "remove", "barrier"},
 		{"strong", "join-nonvoter", "snapshot", "barrier", "remove", "rejoin-same"},
+		// compaction of a non-command tail (the ErrLogNotFound branch of fsmWaitIndex), then a node that can
+		// only catch up by snapshot install, then leadership moves to it
+		{"write", "barrier", "join-nonvoter", "snapshot-compact", "barrier", "snapshot-compact", "join-voter", "stepdown", "barrier", "snapshot-compact"},
 	}
 	for _, sc := range directed {
 		ops, impl, ok := c38RunHistory(t, rep, r, len(sc), 3, sc)
